@@ -101,7 +101,7 @@ func c15Contexts(rng *gen.Rand, g *gen.TreeGen) func(h *gen.Expr) *gen.Expr {
 func c15(r *mon.Run) {
 	r.Rule = "law 1: for seeded random trees A, B of all fragments and random typed documents d, Search('A | B', d) is compared with Search(B, Search(A, d)) where the intermediate value is handed on as the Go value returned (no JSON round trip), in value and in error-ness; " +
 		"law 2: for a random tree E with a JSON value v = Search(E, d) and a random context C[.] of 1-3 layers whose hole is evaluated against the root (operands of || && ! comparators, multi-select members, function arguments, heads of chains and pipes), Search(C[E], d) is compared with Search(C[literal(v)], d). " +
-		"law 1 additionally on every pair of 15 projections / by-expression calls whose right-hand side fails on only some elements (first, middle, last, none) x 14 selections (indices, slices, length, …). When the reference model allows more than one member order, both sides are only required to be allowed results. Non-trivial = distinct (A, B, d) where Search(A, d) is neither null nor an error (law 1), distinct (C, E, d) with a non-null v (law 2)."
+		"law 1 additionally on every pair of 23 left sides (projections / by-expression calls whose right-hand side fails on only some elements, null-producing paths, large integer literals) x 23 right sides (indices, slices, length, dotted paths ending in a function call, comparisons with large literals). When the reference model allows more than one member order, both sides are only required to be allowed results. Non-trivial = distinct (A, B, d) where Search(A, d) is neither null nor an error (law 1), distinct (C, E, d) with a non-null v (law 2)."
 	r.Floor = 2000
 	r.Assumptions = []string{"metamorphic: both sides of each law are computed by the implementation under test; the reference model is used only to recognise order nondeterminism",
 		"literals are spelled with shortest round-trip floats (gen.FormatNumber)"}
@@ -222,11 +222,16 @@ func c15(r *mon.Run) {
 		gen.Chain(gen.Field("o"), gen.StStar(), fn), gen.Func("map", gen.ExpRef(absA()), x()), gen.Func("sort_by", x(), gen.ExpRef(absA())), gen.Chain(x(), gen.StListStar(), gen.StField("k")),
 		gen.Chain(x(), gen.StListStar(), gen.StMultiList(gen.Field("k"), absA())), gen.Chain(x(), gen.StFilter(gen.Cmp("!=", gen.Field("k"), gen.LitJSON("2"))), fn), gen.Chain(gen.Field("y"), gen.StListStar(), gen.StListStar(), fn),
 		gen.Chain(gen.Field("y"), gen.StFlatten(), fn), gen.Chain(x(), gen.StListStar(), gen.StField("missing")), gen.Chain(x(), gen.StFilter(gen.Cmp("==", gen.Field("k"), gen.LitJSON("3")))),
+		gen.Field("missing"), gen.Chain(gen.Field("o"), gen.StField("missing")), gen.Chain(x(), gen.StIndex(9)), gen.LitJSON("null"), gen.Chain(gen.Field("o"), gen.StField("p")), gen.Chain(x(), gen.StIndex(0)),
+		gen.LitJSON("16777217"), gen.LitJSON("[123456789, 16777217]"),
 	}
 	Bs := []*gen.Expr{
 		gen.Chain(nil, gen.StIndex(0)), gen.Chain(nil, gen.StIndex(1)), gen.Chain(nil, gen.StIndex(-1)), gen.Chain(nil, gen.StIndex(0), gen.StField("k")), gen.Func("length", gen.Current()), gen.Chain(nil, gen.StSliceS("0", "1", "")),
 		gen.Current(), gen.Chain(nil, gen.StListStar()), gen.Chain(nil, gen.StFlatten()), gen.Func("not_null", gen.Current()), gen.Chain(nil, gen.StIndex(0), gen.StIndex(0)), gen.Func("type", gen.Current()),
 		gen.Or(gen.Chain(nil, gen.StIndex(5)), gen.LitJSON("9")), gen.MultiList(gen.Chain(nil, gen.StIndex(0)), gen.Chain(nil, gen.StIndex(-1))),
+		gen.Chain(gen.Field("a"), gen.StFunc("type", gen.Current())), gen.Chain(gen.Field("a"), gen.StFunc("not_null", gen.Current(), gen.Raw("n/a"))), gen.Chain(gen.Field("a"), gen.StFunc("length", gen.Current())),
+		gen.Chain(gen.Field("a"), gen.StField("b"), gen.StFunc("to_string", gen.Current())), gen.Chain(nil, gen.StIndex(0), gen.StFunc("type", gen.Current())), gen.Chain(gen.Field("k"), gen.StFunc("to_array", gen.Current())),
+		gen.Cmp("==", gen.Current(), gen.LitJSON("16777217")), gen.Func("to_string", gen.Current()), gen.Func("contains", gen.Current(), gen.LitJSON("123456789")),
 	}
 	var sdocs []interface{}
 	for bad := -1; bad < 4; bad++ {
